@@ -6,7 +6,8 @@
 //! compared exactly.  Oracles (model-independent, on the real output): re-open with `FontRef`,
 //! tags ascending and exactly the supplied set, every table returned byte-for-byte (head[8..12]
 //! excepted), 4-alignment, zero padding, tiling of the file, directory checksums and whole-file
-//! checksum recomputed with an independent summation, binary-search header fields, insertion-order
+//! checksum recomputed with an independent summation, binary-search header fields (saturated at 65535
+//! where the u16 field cannot hold the value: 4096..=65535 tables), no panic up to 65535 tables, insertion-order
 //! independence (shuffled rebuild), copy-missing never overriding.
 use fv_harness::common::*;
 use read_fonts::types::Tag;
@@ -194,12 +195,15 @@ fn oracles(s: &mut Session, ops: &[Op], out: &[u8]) {
         || format!("dir {:?} want {:?}", dir_tags, want_tags));
     s.oracle("num-tables", font.table_directory.num_tables() as usize == n, input, || format!("{}", font.table_directory.num_tables()));
     s.oracle("sfnt-version", font.table_directory.sfnt_version() == 0x0001_0000, input, String::new);
-    // binary search assists as in the OpenType spec
+    // binary search assists as in the OpenType spec; a value the u16 field cannot hold (search_range from
+    // 4096 tables on, range_shift from 2^k + 4096 tables on) is stored saturated at 65535
     if n >= 1 {
         let es = (usize::BITS - 1 - n.leading_zeros()) as usize;
         let sr = 16usize << es;
+        let rs = 16 * n - sr;
         let td = &font.table_directory;
-        s.oracle("search-range-fields", td.entry_selector() as usize == es && td.search_range() as usize == sr && td.range_shift() as usize == 16 * n - sr,
+        s.count(match (sr > 65535, rs > 65535) { (false, false) => "search-fields:exact", (true, false) => "search-fields:sr-saturated", (true, true) => "search-fields:sr+rs-saturated", (false, true) => "search-fields:rs-only(impossible)" });
+        s.oracle("search-range-fields", td.entry_selector() as usize == es && td.search_range() as usize == sr.min(65535) && td.range_shift() as usize == rs.min(65535),
             input, || format!("{} {} {}", td.search_range(), td.entry_selector(), td.range_shift()));
     }
     // every table comes back, aligned, padded, checksummed
@@ -573,9 +577,10 @@ fn do_case(s: &mut Session, rng: &mut Rng, ops: &[Op], pools: &mut Pools, read_t
         Err(_) => {
             s.case("build", req, "trap".into());
             s.count("build:trap");
-            // a trap is only acceptable beyond the container's own limits
+            // a trap is only acceptable beyond the container's own limit: numTables is a u16
+            // (the harness never supplies 4 GiB of table data)
             let m = expected_map(ops);
-            s.oracle("build-does-not-panic-within-limits", m.len() >= 4096, || describe(ops), || format!("{} tables", m.len()));
+            s.oracle("build-does-not-panic-within-limits", m.len() > 65535, || describe(ops), || format!("{} tables", m.len()));
         }
         Ok((order, out)) => {
             s.case("build", req, hex(out));
@@ -587,7 +592,10 @@ fn do_case(s: &mut Session, rng: &mut Rng, ops: &[Op], pools: &mut Pools, read_t
             // ordered_tags on the final key set
             let mut keys = order.clone();
             keys.sort();
-            let oreq = format!("sfnt.order {}", keys.iter().map(|t| format!("A{}:-", tag_hex(*t))).collect::<Vec<_>>().join(" "));
+            // (large key sets are sent descending: O(1) association-list inserts in the model; the answer does
+            // not depend on the insertion order)
+            let okeys: Vec<Tag> = if keys.len() > 300 { keys.iter().rev().copied().collect() } else { keys.clone() };
+            let oreq = format!("sfnt.order {}", okeys.iter().map(|t| format!("A{}:-", tag_hex(*t))).collect::<Vec<_>>().join(" "));
             s.case("ordered_tags", oreq, join(&order.iter().map(|t| tag_hex(*t)).collect::<Vec<_>>()));
             oracles(s, ops, out);
             // insertion-order independence: the final map added in a shuffled order, no copies
@@ -679,16 +687,29 @@ fn run(cfg: &Config, s: &mut Session) {
     for p in [128usize, 256, 512, 1024, 2048] {
         counts.extend([p - 1, p, p + 1]);
     }
-    counts.extend([4094usize, 4095, 4096, 4097]);
+    // 4096: search_range stops fitting the u16 field (was the panic of SearchRange::compute before
+    // /repo 0cd8c18); 2^k + 4096: range_shift stops fitting; 65535: the u16 numTables limit
+    counts.extend([4094usize, 4095, 4096, 4097, 5000, 8191, 8192, 12287, 12288, 65535]);
     if cfg.thorough() {
         counts.extend((71..=300).step_by(1));
-        counts.extend([5000usize, 65535, 65536]);
+        counts.extend([8193usize, 12289, 16383, 16384, 20479, 20480, 32767, 32768, 36863, 36864, 65534, 65536]);
     }
     for n in counts {
-        let ops: Vec<Op> = (0..n as u32)
+        let mut ops: Vec<Op> = (0..n as u32)
             .map(|i| Op::Add(Tag::from_be_bytes((0x4100_0000u32 + i * 3).to_be_bytes()), if n <= 70 { vec![i as u8; (i % 5) as usize] } else { vec![] }))
             .collect();
-        s.count(if n >= 4096 { "count>=4096" } else { "count<4096" });
+        if n > 300 {
+            // descending insertion: the model's association-list insert is then O(1) per add (ascending
+            // insertion of 65535 tags costs it 2·10^9 steps); the real BTreeMap does not care, and the
+            // shuffled rebuild in do_case covers other insertion orders on the real side
+            ops.reverse();
+            // a head table takes part in the big directories too (whole-file checksum over a saturated header)
+            if n % 2 == 0 && n < 65535 {
+                ops.pop();
+                ops.push(Op::Add(HEAD, (0..54u8).collect()));
+            }
+        }
+        s.count(match n { 0..=4095 => "count<4096", 4096..=65535 => "count:4096..=65535", _ => "count>65535" });
         do_case(s, &mut rng, &ops, &mut pools, n <= 70);
     }
     // copy from real fonts: everything missing, then partly supplied
